@@ -1026,5 +1026,42 @@ theorem ltRegion_dependsOn (r s : Region) (hne : common r s ≠ []) :
   rw [h1, dependsOn_eq_all]
   exact ⟨fun h => ⟨hne, h⟩, fun h => h.2⟩
 
+/-- the hole behind finding F5: two regions ordered one way on one shared qudit and the other way
+    on another are invisible to `depends_on` in both directions (and `<` raises) -/
+theorem mixed_pair (r s : Region) (hr : wf r = true) (hs : wf s = true)
+    (q1 q2 : Nat) (a1 b1 a2 b2 : Iv)
+    (h1r : get r q1 = some a1) (h1s : get s q1 = some b1) (h1 : a1.lt b1 = true)
+    (h2r : get r q2 = some a2) (h2s : get s q2 = some b2) (h2 : b2.lt a2 = true) :
+    dependsOn r s = false ∧ dependsOn s r = false ∧ ltRegion r s = .error .value := by
+  have va1 := valid_of_get r hr q1 a1 h1r
+  have vb1 := valid_of_get s hs q1 b1 h1s
+  have va2 := valid_of_get r hr q2 a2 h2r
+  have vb2 := valid_of_get s hs q2 b2 h2s
+  refine ⟨?_, ?_, ?_⟩
+  · cases hd : dependsOn r s with
+    | false => rfl
+    | true =>
+      exfalso
+      have := ((dependsOn_iff r s hr hs).1 hd).2 q1 a1 b1 h1r h1s
+      have hx := (Iv.lt_iff b1 a1 vb1 va1).2 this
+      rw [Iv.lt_asymm a1 b1 va1 vb1 h1] at hx; cases hx
+  · cases hd : dependsOn s r with
+    | false => rfl
+    | true =>
+      exfalso
+      have := ((dependsOn_iff s r hs hr).1 hd).2 q2 b2 a2 h2s h2r
+      have hx := (Iv.lt_iff a2 b2 va2 vb2).2 this
+      rw [Iv.lt_asymm b2 a2 vb2 va2 h2] at hx; cases hx
+  · have hq1 : q1 ∈ common r s := (mem_common r s q1).2
+      ⟨(get_isSome_iff r q1).1 (by simp [h1r]), (get_isSome_iff s q1).1 (by simp [h1s])⟩
+    have hq2 : q2 ∈ common r s := (mem_common r s q2).2
+      ⟨(get_isSome_iff r q2).1 (by simp [h2r]), (get_isSome_iff s q2).1 (by simp [h2s])⟩
+    have hne : common r s ≠ [] := fun e => by rw [e] at hq1; cases hq1
+    refine (ltRegion_shared r s hne).2.2.2 ⟨q1, hq1, q2, hq2, ?_⟩
+    have f1 : fShared r s q1 = true := by simp [fShared, h1r, h1s, h1]
+    have f2 : fShared r s q2 = false := by
+      simp only [fShared, h2r, h2s]; exact Iv.lt_asymm b2 a2 vb2 va2 h2
+    rw [f1, f2]; simp
+
 end Region
 end BqVerif.Region
